@@ -50,5 +50,5 @@ func poolSanity(t *testing.T) {
 
 func TestProps(t *testing.T) {
 	poolSanity(t)
-	harness.Main(t, "C20", Mirror, Elect)
+	harness.Main(t, "C20", Mirror, Elect, High)
 }
